@@ -813,6 +813,9 @@ func (c *Conn) flush() error {
 	}
 
 	if len(c.writeList) == 0 {
+		// nothing to send: do not keep the write interest (a dialer that
+		// connected at once is registered with it set).
+		c.resetRead()
 		return nil
 	}
 
